@@ -52,12 +52,16 @@ structure Field where
   default : Option Val
   deriving Repr, Inhabited
 
-/-- a class statement: `class name(parent, decode_into_subclasses=dis): own…` (`parent = none` ⇒ `Serializable`) -/
+/-- a class statement: `class name(parent, decode_into_subclasses=dis): own…` (`parent = none` ⇒ `Serializable` /
+    `FrozenSerializable`).  `frozen`: `@dataclass(frozen=True)`.  `mixin`: the entry stands for `Serializable` itself
+    (a table may list it as class 0 and give it as parent of its roots, so that it can be the class loaded through). -/
 structure Cls where
   name : Str
   parent : Option Nat
   dis : Option Bool
   own : List Field
+  frozen : Bool := false
+  mixin : Bool := false
   deriving Repr, Inhabited
 
 /-- what the interpreter knows about a class after its definition -/
@@ -69,7 +73,18 @@ structure RCls where
   dis : Bool
   /-- strict ancestors inside the table, nearest first -/
   ancs : List Nat
+  /-- `@dataclass(frozen=True)`: `setattr` on an instance raises `FrozenInstanceError` -/
+  frozen : Bool := false
+  /-- the class is `Serializable` itself (serializable.py:825-831) -/
+  mixin : Bool := false
   deriving Repr, Inhabited
+
+/-- `dataclasses.fields` of a class whose parent has the fields `pf` and whose body declares `own`: the inherited fields
+    keep their position (a redeclared one is REPLACED in place by the new declaration), new names are appended in order
+    (dataclasses.py `_process_class`: `fields[f.name] = f` over the bases' fields, then over the class's own) -/
+def inheritFields (pf own : List Field) : List Field :=
+  pf.map (fun f => match own.find? (fun g => g.name == f.name) with | some g => g | none => f)
+    ++ own.filter (fun g => !(pf.map (·.name)).contains g.name)
 
 /-- one class definition (serializable.py:197-222 + dataclass field inheritance).  The parent's value of
     `decode_into_subclasses` is read at definition time; a root's parent is `Serializable` (value `False`). -/
@@ -78,7 +93,8 @@ def resolveStep (acc : List RCls) (c : Cls) : List RCls :=
   let pf := match p with | some (_, r) => r.fields | none => []
   let pd := match p with | some (_, r) => r.dis | none => false
   let pa := match p with | some (i, r) => i :: r.ancs | none => []
-  acc ++ [{ name := c.name, fields := pf ++ c.own, dis := c.dis.getD pd, ancs := pa }]
+  acc ++ [{ name := c.name, fields := inheritFields pf c.own, dis := c.dis.getD pd, ancs := pa,
+            frozen := c.frozen, mixin := c.mixin }]
 
 /-- process history: the classes are defined one after the other -/
 def resolve (h : List Cls) : List RCls := h.foldl resolveStep []
@@ -235,7 +251,11 @@ def construct (fields : List Field) (args : List (Str × Val)) : Except Out (Lis
       | .ok rest => .ok ((f.name, v) :: rest)
       | .error e => .error e
 
-/-- `from_dict(cls, d, drop_extra_fields)` (serializable.py:777-908).  `π cls` is the iteration order of the set
+/-- some `init=False` field has a decoded value (it will be written with `setattr`, serializable.py:907-909) -/
+def nonInitGiven (fields : List Field) (decoded : List (Str × Val)) : Bool :=
+  fields.any (fun f => !f.init && (lookupKey f.name decoded).isSome)
+
+/-- `from_dict(cls, d, drop_extra_fields)` (serializable.py:777-910).  `π cls` is the iteration order of the set
     `all_subclasses(cls)`.  Recursion is on `fuel` (every recursive call of the code is one unit). -/
 def fromDict (R : List RCls) (π : Nat → List Nat) : Nat → Nat → J → Option Bool → Out
   | 0, _, _, _ => .unmodelled "fuel".toList
@@ -253,14 +273,17 @@ def fromDict (R : List RCls) (π : Nat → List Nat) : Nat → Nat → J → Opt
         match R[cls]? with
         | none => .unmodelled "unknown class".toList
         | some rc =>
-          let dropE := drop.getD (!rc.dis)                            -- 821-822
+          -- 821-831: `None` ⇒ the class attribute; loading through `Serializable` itself always decodes into subclasses
+          let dropE := drop.getD (if rc.mixin then false else !rc.dis)
           match decodeFields (fun c j dr => fromDict R π fuel c j dr) dropE kv rc.fields with   -- 834-855
           | .error e => e
           | .ok decoded =>
             let extras := (kv.map (·.1)).filter (fun k => !(rc.fields.map (·.name)).contains k)
             if extras.isEmpty || dropE then                           -- 860-863
               match construct rc.fields decoded with
-              | .ok fs => .ok (.inst cls fs)
+              | .ok fs =>                                              -- 907-909: `setattr(instance, name, value)`
+                if rc.frozen && nonInitGiven rc.fields decoded then .raise "FrozenInstanceError".toList
+                else .ok (.inst cls fs)
               | .error e => e
             else
               let initArgs := (decoded.map (·.1)).filter (fun k => (initNames R cls).contains k)
